@@ -72,6 +72,8 @@ struct Result_ {
     points: Vec<crate::sched::PointRec>,
     flooded: bool,
     timeouts: usize,
+    /// after everything: (reachable flag, answer to a valid request)
+    serves_again: Option<(bool, String)>,
 }
 
 fn state_of(world: &World) -> Option<String> {
@@ -256,6 +258,7 @@ fn execute_with(c: &OutageCase, choices: &[usize], early_timeouts: usize) -> Res
         Err(p) => p.into_inner().take(),
     };
     world.tower.as_mut().unwrap().monitor = m;
+    let mut serves_again = None;
     if ex.deadlock.is_none() && ex.panics.iter().all(|p| p.is_none()) && ex.diverged.is_none() {
         // the chain monitor keeps polling for ever: whatever was mined late is picked up eventually
         let _ = std::panic::catch_unwind(std::panic::AssertUnwindSafe(|| {
@@ -263,6 +266,10 @@ fn execute_with(c: &OutageCase, choices: &[usize], early_timeouts: usize) -> Res
             t.poll();
             t.poll();
         }));
+        // ... and with the node back and polled, the public API must take on work again
+        let flag = *reachable.0.lock().unwrap();
+        let r = api.get_subscription_info(user_keys(1).sign(b"get subscription info"));
+        serves_again = Some((flag, r.map(|_| "ok".to_owned()).unwrap_or_else(|e| format!("{:?}", e.code))));
     }
     let flooded = env.lock().rpc_flooded;
     let panics: Vec<String> = ex.panics.iter().filter_map(|p| p.clone()).collect();
@@ -285,6 +292,7 @@ fn execute_with(c: &OutageCase, choices: &[usize], early_timeouts: usize) -> Res
         points: ex.points,
         flooded,
         timeouts: sched.timeouts_fired(),
+        serves_again,
     }
 }
 
@@ -390,6 +398,14 @@ fn judge(c: &OutageCase, r: &Result_, reference: &Result_) -> Vec<(String, Strin
             format!("outage-not-noticed:{path}"),
             format!("{}: a call to the node failed and it is still away, yet bitcoind is flagged reachable", c.name),
         ));
+    }
+    if let Some((flag, answer)) = &r.serves_again {
+        if !*flag || answer == "Unavailable" {
+            v.push((
+                format!("no-recovery:api-still-unavailable-after-the-node-is-back:{path}:{what}"),
+                format!("{}: the node is back and has been polled three times; reachable flag {flag}, a valid request is answered {answer}", c.name),
+            ));
+        }
     }
     // after recovery and two polls everything must be as in the fault-free run
     if r.final_state != reference.final_state || r.faulty_reply != reference.faulty_reply {
@@ -638,6 +654,28 @@ pub fn c12(tier: Tier) -> i32 {
             if done % 37 == 1 {
                 run.sample(json!({"case": c.name, "faulty": format!("{:?}", c.faulty), "outage_at_rpc": c.rpc_index, "second_outage_at_successful_rpc": c.again, "failed_source_call": c.src_index, "polls_during_outage": c.k, "mined_meanwhile": format!("{:?}", c.mined)}));
             }
+        }
+    }
+    // the same story once more with the real teosd process (real BitcoindClient as RPC client and block source,
+    // which the in-process engines replace by the simulated node's own transport)
+    if !crate::conform::teosd_binary().exists() {
+        eprintln!("MACHINERY-ERROR: {} is missing (./check builds it)", crate::conform::teosd_binary().display());
+        return 2;
+    }
+    let mut process_level = crate::conform::outage_recovery();
+    if process_level.is_err() {
+        // real time: once more, alone and with more patience, before believing it
+        process_level = crate::conform::outage_recovery_patiently();
+    }
+    match process_level {
+        Ok(()) => run.set("process_level_outage_and_recovery_of_teosd", json!("passed")),
+        Err((sig, detail)) if sig.starts_with("machinery:") => {
+            eprintln!("MACHINERY-ERROR: {sig} {detail}");
+            return 2;
+        }
+        Err((sig, detail)) => {
+            run.set("process_level_outage_and_recovery_of_teosd", json!("failed"));
+            run.violation(&sig, detail, json!({"engine": "conform-outage"}), 1);
         }
     }
     run.set("evaluations", json!(schedules.load(std::sync::atomic::Ordering::Relaxed)));
